@@ -16,7 +16,7 @@ func genSpec(t *rapid.T) FileSpec {
 	f := FileSpec{
 		Package:  rapid.SampledFrom([]string{"p", "a.b_c.d", "pkg_x", "x.Y"}).Draw(t, "package"),
 		Alias:    rapid.Bool().Draw(t, "alias"),
-		Protolib: rapid.SampledFrom([]string{"", "", "custom"}).Draw(t, "protolib"),
+		Protolib: rapid.SampledFrom([]string{"", "", "custom", "gogo"}).Draw(t, "protolib"),
 		JSON:     rapid.Bool().Draw(t, "json"),
 	}
 	// names are distinct after Go protobuf's own camel-casing by construction (no rejection)
